@@ -42,7 +42,15 @@ def run(chk, tier):
     r = snp.SnpRule(P, ["topology-xml-nolibxml.c"])
     st = r.run(chk)
     chk.floor("R-SNP", "producer call sites in the built-in exporter", st["producers"], 10)
-    chk.decided += ["the built-in exporter's second pass and the base64 helpers are given exactly the size of the buffer allocated for them",
+    chk.rule("R-SPRINTF", "unbounded sprintf() into a fixed-size local buffer fits for the longest text its format can produce: maximum length from the conversions and argument types (%s from literals or from functions "
+             "that only return literals), the function explored with every sprintf returning that maximum and loop counters computed exactly, so that `len += sprintf(tmp+len, ..)` in a counted loop reaches its worst case")
+    import sprintfmax
+    nsp, nspj = sprintfmax.run(chk, P, ["topology-xml.c", "topology-xml-nolibxml.c", "topology-xml-libxml.c"])
+    chk.floor("R-SPRINTF", "sprintf sites into fixed local buffers judged", nsp, 40)
+    if nspj:
+        chk.notes.append("R-SPRINTF: %d sprintf sites not judged (a %%s argument that is not a literal or a literal-returning function)" % nspj)
+    chk.decided += ['the export never writes past its fixed formatting buffers (worst-case length of every sprintf, including lines accumulated over ten entries)',
+                    "the built-in exporter's second pass and the base64 helpers are given exactly the size of the buffer allocated for them",
                     'export and import access the attribute union only under the matching object type',
                     "element content (userdata, value arrays) is written with exactly the announced length by both backends",
                     "nothing that is exported is ignored on import (attribute names and child tags, per element)", "every support bit is carried",
